@@ -61,6 +61,17 @@ def snap(diffx):
     }
 
 
+def safe_snap(diffx):
+    """snap(), but a tree whose public attributes can no longer be read (possible only with a changed library)
+    gives a well-formed snapshot that no specification state matches - TLC then reports it - instead of a
+    harness exception."""
+    try:
+        return snap(diffx)
+    except Exception as e:      # noqa
+        none = {'opts': [], 'kind': 'other:unreadable', 'text': [], 'raw': [], 'meta': jabs(None)}
+        return {'opts': [typed_opt('<tree-not-readable>', type(e).__name__)], 'pre': none, 'meta': none, 'changes': []}
+
+
 def diff_desc(f, cat):
     enc = f.diff_encoding
     t = f.diff_type
@@ -140,7 +151,7 @@ class History(object):
         self.blobs = []
 
     def _snaps(self):
-        return [snap(t) for t in self.trees]
+        return [safe_snap(t) for t in self.trees]
 
     def _emit(self, e):
         e['snaps'] = self._snaps()
